@@ -456,6 +456,9 @@ func extractC14(c *Ctx) error {
 	if err := c14RetryRules(c); err != nil {
 		return err
 	}
+	if err := c14MemoryState(c); err != nil {
+		return err
+	}
 	return c14EnqueueSites(c)
 }
 
